@@ -43,6 +43,10 @@ RULE = ("values of all eight record kinds built from real types (chunks with 0/1
         "carries text or bytes; each of the 17 Error variants with its payload in each of the 7 places of a Response that can carry an "
         "Error) through the real libp2p CBOR codec and rmp-serde, and truncations / bit flips of the CBOR.  Distinct/non-trivial by (op, kind, outcome class, size class)")
 ASSUMPTIONS = [
+    "cases whose encoding exceeds 8 KiB are not turned into Coq literals (one 70000-byte case costs coqc more than 1 GB): they are "
+    "judged by the model-independent oracle only (round trip, tag, content hash, never panics); the single exception is the "
+    "65536-byte chunk (bin32 boundary), evaluated in a shard of its own. The 4-byte CBOR head form is still exercised in the model "
+    "through integer arguments >= 65536",
     "all harness runs happen under an always-on tracing subscriber (every level enabled, every event's fields formatted): "
     "evaluating and formatting log arguments is part of what the decoders do in production",
     "serde-derive symmetry (Deserialize inverts Serialize for the derived types) and the totality of the third-party typed "
@@ -338,6 +342,8 @@ def gen_records(ctx):
     # payload-size boundaries of bin8 / bin16 / bin32 for chunks, and one 4 MiB chunk
     for size in [0, 1, 255, 256, 65535, 65536]:
         cases.append({"op": "record", "kind": "Chunk", "v": {"data": {"gen": [size, 77 + size]}}})
+    # the one case above BIG that is also evaluated in Coq (the bin32 boundary), in a shard of its own
+    cases[-1]["model_big"] = True
     cases.append({"op": "record", "kind": "Chunk", "v": {"data": {"gen": [4 * 1024 * 1024, 12345]}}})
     cases.append({"op": "record", "kind": "ChunkWithPayment", "v": {"data": {"gen": [70000, 5]}}, "proof": rnd_proof(rng)})
     return cases
@@ -627,7 +633,7 @@ def gen_malformed(ctx):
     for kind in KINDS:
         for c, o in sorted(per_kind.get(kind, []), key=lambda co: co[1]["len"])[:take] + per_kind.get(kind, [])[:take]:
             b = bytes.fromhex(o["bytes"])
-            if len(b) > 6000:
+            if len(b) > 2500:
                 continue
             offs = range(len(b)) if len(b) <= (100 if quick else 400) else sorted(rng.sample(range(len(b)), 30 if quick else 120))
             for k in offs:
@@ -858,9 +864,26 @@ def c_kind(name):
     return "K" + name
 
 
+BIG = 8192       # bytes: above this a case is not turned into Coq literals (a 70000-byte case costs coqc > 1 GB)
+
+
+def case_size(c, o):
+    if c["op"] == "record":
+        return o.get("len", 0)
+    if c["op"] == "msg":
+        return max(o.get("cbor_len", 0), len(o.get("rmp") or "") // 2)
+    if c["op"] in ("decode", "msg_decode"):
+        return len(c.get("bytes", "")) // 2
+    if c["op"] == "encseq":
+        return sum(len(r.get("bytes") or "") // 2 for r in o["steps"])
+    return 0
+
+
 def model_term(c, o):
     if "panic" in o or "error" in o:
         return "false"
+    if case_size(c, o) > BIG and not c.get("model_big"):
+        return None       # judged by the model-independent oracle only
     if c["op"] == "headers":
         return " && ".join("agree_header %s %s %s" % (c_kind(h["kind"]), cbytes(h["bytes"]), copt(h["back"], c_kind))
                            for h in o["headers"])
@@ -989,8 +1012,11 @@ def run(ctx):
         robust_pipeline(ctx, "props/C12.v", ctx.corpus(), binary, oracle, model_term, IMPORTS, nontrivial=nontrivial, show=show,
                         relation=rel, shard_size=60)
         return
-    robust_pipeline(ctx, "props/C12.v", ctx.corpus() + gen_records(ctx) + gen_encseq(ctx) + gen_messages(ctx), binary, tracking_oracle, model_term,
-                    IMPORTS, nontrivial=nontrivial, show=show, relation=rel, shard_size=30)
+    first = ctx.corpus() + gen_records(ctx) + gen_encseq(ctx) + gen_messages(ctx)
+    robust_pipeline(ctx, "props/C12.v", [c for c in first if c.get("model_big")], binary, tracking_oracle, model_term,
+                    IMPORTS, nontrivial=nontrivial, show=show, relation=rel, shard_size=1)
+    robust_pipeline(ctx, "props/C12.v", [c for c in first if not c.get("model_big")], binary, tracking_oracle, model_term,
+                    IMPORTS, nontrivial=nontrivial, show=show, relation=rel, shard_size=10)
     robust_pipeline(ctx, "props/C12.v", with_keys(gen_malformed(ctx) + gen_structured_chunks(ctx)) + gen_malformed_messages(ctx), binary,
                     oracle, model_term, IMPORTS,
-                    nontrivial=nontrivial, show=show, relation=rel, shard_size=150)
+                    nontrivial=nontrivial, show=show, relation=rel, shard_size=40)
